@@ -11,7 +11,7 @@ EXPLANATION = (
     'offset/size/object to link_function in the order get_code_from_symbol filled them. RELOC: the jal patch keeps the '
     'opcode under 0xfc000000 and inserts the target masked to 26 bits. T-LANE: the word assembly in link_function_mips '
     'is little-/big-endian under the matching test. R-ERR1/R-ERR2: unresolved-symbol and unsupported-object paths '
-    'return errors that link()/main propagate (R-ERR3 under C12). GROW-LOOP: no loop runs up to a snapshot (taken before the loop) of a size that a member function reachable from its body changes (functions appended to the link list while it is walked are still placed). R-SYM: the relocation symbol index r_info >> 8 is not masked narrower than 24 bits. Not decided: placement for arbitrary object files.')
+    'return errors that link()/main propagate (R-ERR3 under C12). GROW-LOOP: no loop runs up to a snapshot (taken before the loop) of a size that a member function reachable from its body changes (functions appended to the link list while it is walked are still placed). NEXT-KEEP: a store to a `next` link stores null, initialises a node allocated in the same function, or is dominated by a null test of that link (no list node is dropped). R-SYM: the relocation symbol index r_info >> 8 is not masked narrower than 24 bits. Not decided: placement for arbitrary object files.')
 
 
 def run(tier, t0):
@@ -27,5 +27,5 @@ def run(tier, t0):
     ln.floor = 4
     results = [link.swap(prog, scope, 20), link.link_order(prog), link.reloc(prog), link.name_exact(prog), ln,
                sym.find_exhaustive(prog, lambda f: f.file in ('core/Linker.cpp', 'core/imports_ar.cpp', 'core/imports_obj.cpp'), 4),
-               err.err1(prog, scope, table, floor=3), err.err2(prog, scope, table, floor=3), growloop.grow_loop(prog, common.callgraph(), lambda f: f.file.startswith(('core/', 'fileio/', 'disasm/')), 5), utilsib.r_sym(prog)]
+               err.err1(prog, scope, table, floor=3), err.err2(prog, scope, table, floor=3), growloop.grow_loop(prog, common.callgraph(), lambda f: f.file.startswith(('core/', 'fileio/', 'disasm/')), 5), utilsib.r_sym(prog), utilsib.next_keep(prog)]
     return report.finish('C20', tier, results, EXPLANATION, [], common.TRUSTED, t0)
